@@ -6,11 +6,8 @@
   The kernel is a script: `acc` lists how many bytes each successive sendmsg accepts
   (0 = EAGAIN; list exhausted = everything).  `wire` is what the kernel accepted, per call.
 
-  Mirrored quirk (socket.c `nice_socket_queue_send_with_callback`): after copying the tail of the
-  first buffer the offset is *decremented by the copied length* instead of being cleared
-  (`if (message_offset >= len) message_offset -= len; else message_offset = 0;`), so when a
-  partial write ends in the second half of a buffer and another buffer follows, the start of the
-  next buffer is skipped and the end of the queued block stays uninitialised (`heapJunk`).
+  (socket.c `nice_socket_queue_send_with_callback` as fixed in 2caa19c: after the tail of the first
+  partially written buffer the following buffers are copied from their start.)
 -/
 import Nice.Model.SockBase
 namespace Nice.SendQueue
@@ -55,8 +52,8 @@ def copyLoop : List Bytes → (messageOffset offset : Nat) → (tbs : Bytes) →
       let len := min (tbs.length - offset) (buf.length - messageOffset)
       let tbs := blit tbs offset ((buf.drop messageOffset).take len)
       let offset := offset + len
-      let messageOffset := if messageOffset ≥ len then messageOffset - len else 0
-      copyLoop rest messageOffset offset tbs
+      -- the following buffers are queued from their start
+      copyLoop rest 0 offset tbs
 
 /-- `nice_socket_queue_send_with_callback (queue, message, message_offset, message_len, head, ...)`:
     the block that is queued (none when nothing remains) -/
